@@ -15,8 +15,23 @@ let four_stats v =
 (* the model is a pure function: two results, and the caller's data unchanged *)
 let put_wavg (a, se) = put_i 2; put_f a; put_f se; put_i 1
 
-let handler r =
+(* one sub-case of a session, answered into a string (the output buffer of Common is saved and restored) *)
+let capture (f : unit -> unit) : string =
+  let saved = Buffer.contents buf and sf = !first in
+  Buffer.clear buf; first := true;
+  f ();
+  let s = Buffer.contents buf in
+  Buffer.clear buf; Buffer.add_string buf saved; first := sf; s
+
+let rec handler r =
   match word r with
+  (* a session: the extracted [session] answers the requests one after the other; the ambient state is not an input of any answer
+     (here: unit), events of the caller's side (the amb_ sub-cases) answer with a dot *)
+  | "seq" -> let n = integer r in
+      let subs = List.init n (fun _ -> let len = integer r in let toks = Array.init len (fun _ -> word r) in { toks = toks; pos = 0 }) in
+      let outs = session (fun sr -> capture (fun () -> handler sr)) (fun _ a -> a) () subs in
+      List.iteri (fun k s -> if k > 0 then put_w "|"; put_w s) outs
+  | "amb_errno" | "amb_fe" | "amb_stream" | "amb_call" | "amb_libm" -> put_w "."
   | "workload" -> let w = integer r in let t = integer r in
       (match workload (nat_of_int w) (nat_of_int t) with Ok l -> put_zl l | Exit -> put_w "EXIT" | OOB -> put_w "OOB" | Fuel -> put_w "FUEL")
   | "range" -> let a = integer r in let b = integer r in let s = integer r in
